@@ -105,6 +105,7 @@ func (p transportProfile) String() string {
 }
 
 type xferWorld struct {
+	onTunnel   []func(hop int, c *verifsim.Conn) // called for every tunnel connection a connector dials
 	ccKeys     bool // keys typed while a transfer runs arrive as tmux control-mode commands
 	ccKeysSent int
 	termMark int // terminal offset at which the current transfer began
@@ -260,6 +261,9 @@ func (x *xferWorld) connector(proc string, hop int) func(int) net.Conn {
 			return nil
 		}
 		x.tunnelConns = append(x.tunnelConns, c)
+		for _, f := range x.onTunnel {
+			f(hop, c)
+		}
 		for _, l := range []*verifsim.Link{c.Wr, c.R} {
 			prev := l.OnWrite
 			l.OnWrite = func(ll *verifsim.Link, d []byte) {
